@@ -40,6 +40,31 @@ CLAIMED = {
         technique='abstract interpretation of MIR in product with a marked grammar automaton (typestate / static analysis)',
         engine='B',
     ),
+    'C04': dict(
+        category='model_checking',
+        text='Inductive invariant "buffer ∈ L(O)" (byte level, so UTF-8 well-formedness included). Closure of the mutator set: all ~360 unsafe sites classified with discharged obligations, '
+             'no DerefMut/AsMut/BorrowMut/IndexMut, no public storage field, no &mut of the stored text in safe code. Preservation: every symbolic path (102) of the component setters of the four '
+             'owned RI types is turned into the regular set of results it can produce over ALL buffers and ALL arguments and checked ⊆ L(O) (exact automata inclusion, with counterexample); '
+             'authority handle: window accounting, tiling, no underflow on all paths; from_scheme lemma; scanner Err positions used as insertion points and the guard predicates '
+             '(looks_like_scheme, first_segment_has_colon, has-scheme) verified against the scanner MIR.',
+        design_ref='DESIGN.md §3 Engine D (D1–D3), Engine C (C-sites, C-gate), §4 C04',
+        note='See notes in DESIGN.md §4 C04 for the path handle: push/pop/clear/normalize and the composites built on them (symbolic_push/append, PathBuf wrappers, resolve) are covered as stated there. '
+             '"No call panics" is decided for what the affine/automata domains see (bounds of splices, tiling lengths, usize underflow, scanner assertions). Genuine defect F6 was repaired by a fix: commit; '
+             'the four non-closed paths are reported with witness ":" on the pre-fix tree. Trusted: utils::replace/allocate_range summaries, std Vec/slice contracts.',
+        technique='symbolic path enumeration over MIR + regular language closure on the marked grammar automaton + unsafe-site table (static analysis)',
+        engine='D+A+B+C',
+    ),
+    'C05': dict(
+        category='model_checking',
+        text='For every symbolic path of every component setter (four owned RI types; None/Some), the MARKED result language — other components keep the markers of the original decomposition, the edited '
+             'component\'s markers surround the written value, a shield literal is counted to the path — is included in det(M_O) with all ten component markers. M_O is unambiguous, so for ALL buffers and arguments: '
+             'the component reads back as requested (presence/absence included; shield·value for the path), every other component reads back byte-identical, shields are only the documented "/", "/.", "./". ',
+        design_ref='DESIGN.md §3 Engine D (D3), Appendix B, §4 C05',
+        note='Relies on C02 (scanner ranges = specification spans) and on the splice summaries of utils::replace/allocate_range. Exactness of the shield CONDITIONS is decided through the read-back inclusion '
+             '(an unnecessary shield changes the path that is read back only in the documented form; a missing one makes the inclusion fail). Genuine defect F6 repaired (see C04).',
+        technique='symbolic path enumeration over MIR + marked-language inclusion (static analysis)',
+        engine='D+A',
+    ),
     'C07': dict(
         category='other',
         text='Claimed in part. Decides, as a statement about the code of every eq (hence for all pairs): the projections each hand-written == compares are exactly the '
